@@ -17,7 +17,9 @@ def stored_rates(ctx, n):
     from ebisim.simulation import advanced_simulation
     logging.getLogger("ebisim").setLevel(logging.ERROR)
     rng = ctx.rng
-    for k in range(n):
+    done = 0
+    for k in range(n + 3):
+        if done >= n: break
         dev, dkw = gens.make_device(rng, n_grid=60)
         tg, tdesc = gens.make_targets(rng, dev, k=int(rng.integers(1, 4)), zmax=8)
         bg, bdesc = gens.make_gases(rng, k=1)
@@ -44,6 +46,7 @@ def stored_rates(ctx, n):
                         ctx.fail("correspondence", f"stored rate {key!r} of target {i} at column {col} is not the kernel's rate at the stored state", inp=dict(desc, y=sol.y[:, col], key=int(key)))
                         return
             ctx.seen(("stored", k, int(col)))
+        done += 1
 
 
 def run(ctx):
